@@ -761,3 +761,15 @@ Proof.
   destruct HT' as [(J1 & J2 & J3) Hs'] eqn:E. clear E.
   repeat split; auto.
 Qed.
+
+(** * Where [Top] states come from *)
+
+(** Any state between two requests is a [Top] state when its own cache is read as the
+    inputs: in particular the state reached by any sequence of set_input requests on a new
+    simulation (what every correspondence case starts with). *)
+Theorem quiet_state_is_top : forall sy pp s, stack s = [] -> invalid s = [] -> Top sy pp (cache s) s.
+Proof.
+  intros sy pp s Hs Hi. split; [|exact Hs]. repeat split; auto.
+  intros v x q a Ex Hn Hl p Hq Hc.
+  rewrite (D_unfold sy pp (cache s) v p x Ex), Hc, Hn, Hq, Hl. reflexivity.
+Qed.
